@@ -96,12 +96,27 @@ type Splitter interface {
 	Split(c json.RawMessage) []json.RawMessage
 }
 
+// CrashSiter is optionally implemented by sub-process props: a site label for the
+// signature of a worker death / deadline on the given case (input class, never the input).
+type CrashSiter interface {
+	CrashSite(c json.RawMessage) string
+}
+
+func crashSite(id string, c json.RawMessage) string {
+	if cs, ok := Lookup(id).(CrashSiter); ok {
+		if s := cs.CrashSite(c); s != "" {
+			return s + "/"
+		}
+	}
+	return ""
+}
+
 // Assumer is optionally implemented to list assumptions in evidence.
 type Assumer interface{ Assumptions() []string }
 
 var registry = map[string]Prop{}
 
-func Register(p Prop) { registry[p.ID()] = p }
+func Register(p Prop)       { registry[p.ID()] = p }
 func Lookup(id string) Prop { return registry[id] }
 func IDs() []string {
 	var ids []string
@@ -435,20 +450,20 @@ func RunCheck(p Prop, o Options) int {
 		samples = append(samples, v)
 	}
 	cov := map[string]interface{}{
-		"evaluations":         evals,
-		"cases":               ncases,
-		"distinct_nontrivial": int64(len(nontriv)) + nontrivDirect,
-		"rule":                p.Rule(),
-		"samples":             samples,
-		"exhaustive":          exhaustive,
-		"bounds":              p.Bounds(o.Tier),
-		"distinct_outcomes":   len(outcomes),
-		"outcomes":            outcomes,
-		"known_findings_hit":  knownHit,
-		"stale_known_findings": stale,
+		"evaluations":              evals,
+		"cases":                    ncases,
+		"distinct_nontrivial":      int64(len(nontriv)) + nontrivDirect,
+		"rule":                     p.Rule(),
+		"samples":                  samples,
+		"exhaustive":               exhaustive,
+		"bounds":                   p.Bounds(o.Tier),
+		"distinct_outcomes":        len(outcomes),
+		"outcomes":                 outcomes,
+		"known_findings_hit":       knownHit,
+		"stale_known_findings":     stale,
 		"new_violation_signatures": confirmed,
-		"workers":             o.Workers,
-		"cases_enumerated":    total,
+		"workers":                  o.Workers,
+		"cases_enumerated":         total,
 	}
 	if p.Level() == "model_checking" {
 		cov["states"] = states
@@ -566,9 +581,9 @@ func Replay(path, self string) int {
 // ---------------------------------------------------------------- subprocess workers
 
 type subproc struct {
-	cmd *exec.Cmd
-	in  io.WriteCloser
-	out *bufio.Reader
+	cmd  *exec.Cmd
+	in   io.WriteCloser
+	out  *bufio.Reader
 	errb *tailBuf
 }
 
@@ -671,7 +686,7 @@ func runInSubproc(sp *subproc, self, id string, c json.RawMessage) (Result, *sub
 			frame := TopFrame([]byte(stderr))
 			return Result{
 				Crash: kind,
-				Viols: []Viol{{Sig: fmt.Sprintf("%s/crash/%s:%s", id, kind, frame), What: fmt.Sprintf("worker process died (%s) in %s: %s", kind, frame, trunc(firstLine(stderr), 200))}},
+				Viols: []Viol{{Sig: fmt.Sprintf("%s/crash/%s%s:%s", id, crashSite(id, c), kind, frame), What: fmt.Sprintf("worker process died (%s) in %s: %s", kind, frame, trunc(firstLine(stderr), 200))}},
 			}, nil
 		}
 		var r Result
@@ -684,7 +699,7 @@ func runInSubproc(sp *subproc, self, id string, c json.RawMessage) (Result, *sub
 		sp.kill()
 		return Result{
 			Crash: "hang",
-			Viols: []Viol{{Sig: id + "/crash/hang", What: fmt.Sprintf("case did not finish within %v", CaseDeadline)}},
+			Viols: []Viol{{Sig: id + "/crash/" + crashSite(id, c) + "hang", What: fmt.Sprintf("case did not finish within %v", CaseDeadline)}},
 		}, nil
 	}
 }
